@@ -21,7 +21,8 @@ ID = "C17"
 SHARDS = {"quick": 8, "thorough": 16}
 RULE = ("(phonon) data sets with 1-12 volumes, 1-10 q-points, 3-60 modes, values of either sign up to 1e5, weights >= 0, any nm/na; "
         "(static) tables with any component subset/order, key spellings c11 / C11 / c_11 / c1123 (4-digit), 1-10 rows, optional "
-        "lattice block, trailing blanks/tabs; (command) nine systems, sufficient subsets, re-parse of stdout; non-trivial = "
+        "lattice block, trailing blanks/tabs, rows in decreasing / increasing / shuffled volume order, numbers with or without a decimal "
+        "point; (command) nine systems, sufficient subsets, tables in floats or in whole numbers obeying the symmetry, re-parse of stdout; non-trivial = "
         "np != 3*na or negative values or > 1 q-point; table with upper-case/prefixed/4-digit keys and a lattice block; any command case; "
         "distinct by the drawn case")
 ASSUMPTIONS = [
@@ -126,15 +127,19 @@ def static_cases(draw):
     return {"keys": [list(KEYS21[i]) for i in order], "nrows": nrows, "style": draw(st.sampled_from(STYLES)),
             "lattice": draw(st.booleans()), "trail": draw(st.sampled_from(["", " ", "\t", "   \t "])),
             "seed": draw(st.integers(0, 2 ** 32 - 1)), "blank_end": draw(st.booleans()),
-            "header_word": draw(st.sampled_from(["V", "v", "Volume", "V(bohr3)"])), "zero_cols": draw(st.booleans())}
+            "header_word": draw(st.sampled_from(["V", "v", "Volume", "V(bohr3)"])), "zero_cols": draw(st.booleans()),
+            # rows as tabulated: any volume order; numbers with or without a decimal point
+            "vol_order": draw(st.sampled_from(["decreasing", "decreasing", "increasing", "shuffled"])),
+            "numbers": draw(st.sampled_from(["float", "float", "whole"]))}
 
 
 def write_static(path, c, vols, tab, lat, vref, mass):
     names = [spell(tuple(k), c["style"], j) for j, k in enumerate(c["keys"])]
     t = c["trail"]
     lines = ["static table %s" % c["style"] + t, "%r %d %r" % (vref, len(vols), mass) + t, c["header_word"] + " " + " ".join(names) + t]
+    num = (lambda x: "%d" % int(x)) if c.get("numbers") == "whole" else (lambda x: repr(float(x)))
     for i in range(len(vols)):
-        lines.append(repr(float(vols[i])) + "  " + "  ".join(repr(float(x)) for x in tab[i]) + t)
+        lines.append(num(vols[i]) + "  " + "  ".join(num(x) for x in tab[i]) + t)
     if c["lattice"]:
         lines.append(" lattice_a lattice_b lattice_c" + t)
         for i in range(len(vols)):
@@ -159,6 +164,13 @@ def static_oracle(ctx, c):
         tab[:, z] = 0.0
     lat = rng.uniform(0.5, 12, (nrows, 3))
     vref, mass = float(rng.uniform(50, 3000)), float(rng.uniform(1, 2000))
+    if c.get("numbers") == "whole":
+        vols = np.sort(rng.choice(np.arange(50, 3000), nrows, replace=False).astype(float))[::-1]
+        tab = np.round(tab)
+    if c.get("vol_order") == "increasing":
+        vols = vols[::-1].copy()
+    elif c.get("vol_order") == "shuffled":
+        vols = rng.permutation(vols)
     from ..datasets import reused_dir
     d = reused_dir("c17")
     path = os.path.join(d, "elast.dat")
@@ -197,7 +209,8 @@ def static_target(ctx):
     def body(c):
         static_oracle(ctx, c)
         ctx.case(c, c["style"] != "c" and c["lattice"], classes=["static", "style-" + c["style"], "lattice" if c["lattice"] else "no-lattice",
-                                                                   "zero-columns" if c.get("zero_cols") else "no-zero-columns"])
+                                                                   "zero-columns" if c.get("zero_cols") else "no-zero-columns",
+                                                                   "volumes-" + c.get("vol_order", "decreasing"), "numbers-" + c.get("numbers", "float")])
 
     return body, (static_cases(),)
 
@@ -225,7 +238,8 @@ def command_cases(draw):
     system = draw(st.sampled_from(SYSTEMS))
     return {"system": system, "order": list(draw(st.permutations(list(range(21))))), "extra": draw(st.integers(0, 3)),
             "nrows": draw(st.integers(1, 8)), "seed": draw(st.integers(0, 2 ** 32 - 1)), "lattice": draw(st.booleans()),
-            "upper": draw(st.booleans()), "trail": draw(st.sampled_from(["", " ", "\t"]))}
+            "upper": draw(st.booleans()), "trail": draw(st.sampled_from(["", " ", "\t"])),
+            "numbers": draw(st.sampled_from(["float", "float", "whole"]))}
 
 
 def command_oracle(ctx, c):
@@ -236,6 +250,14 @@ def command_oracle(ctx, c):
     system = c["system"]
     rng = np.random.default_rng(c["seed"])
     w = random_invariant(system, rng, c["nrows"])
+    whole = c.get("numbers") == "whole"
+    if whole:
+        # a table typed in whole GPa that obeys the symmetry exactly: independent parameters are multiples of 4
+        from ..fillhelp import natural_basis
+        nat = natural_basis(system)
+        w = (4.0 * rng.integers(-100, 100, (c["nrows"], nat.shape[1]))) @ nat.T
+        whole = bool(np.allclose(w, np.round(w), atol=1e-9))
+        w = np.round(w) if whole else w
     if system == "triclinic":
         keys = list(KEYS21)          # the triclinic relation set is empty: everything has to be supplied
         w = w + (np.abs(w) < 1.0) * 5.0
@@ -243,11 +265,13 @@ def command_oracle(ctx, c):
         keys = subset_from_order(system, c["order"], c["extra"])
     idx = [KEYS21.index(k) for k in keys]
     vols = np.sort(rng.uniform(50, 3000, c["nrows"]))[::-1]
+    if whole:
+        vols = np.sort(rng.choice(np.arange(50, 3000), c["nrows"], replace=False).astype(float))[::-1]
     lat = rng.uniform(0.5, 12, (c["nrows"], 3))
     tab = w[:, idx]          # exactly consistent (rounding redundant columns separately would contradict the relations by ~5e-4,
                              # and then the code's least-squares compromise and the reference projection legitimately differ)
     cc = {"keys": [list(k) for k in keys], "style": "C" if c["upper"] else "c", "lattice": c["lattice"], "trail": c["trail"],
-          "blank_end": False, "header_word": "V"}
+          "blank_end": False, "header_word": "V", "numbers": "whole" if whole else "float"}
     d = tempfile.mkdtemp(prefix="cijc17-")
     try:
         path = os.path.join(d, "elast.dat")
@@ -298,7 +322,7 @@ def command_oracle(ctx, c):
 def sub_command(ctx):
     def body(c):
         nk = command_oracle(ctx, c)
-        ctx.case(c, True, classes=["command", c["system"], "lattice" if c["lattice"] else "no-lattice"])
+        ctx.case(c, True, classes=["command", c["system"], "lattice" if c["lattice"] else "no-lattice", "numbers-" + c.get("numbers", "float")])
 
     ctx.run_given(body, command_cases(), max_examples=ctx.n(9 * 40, 9 * 2000))
 
